@@ -118,8 +118,13 @@ class ModelModifier:
     # buffer offsets.
 
     # remove all the constant from the model.
-    for buffer in quantized_model.buffers:
+    for buffer_idx, buffer in enumerate(quantized_model.buffers):
       if buffer.data is not None:
+        if len(buffer.data) == 0:
+          # Nothing to store outside the flatbuffer. A zero size would be
+          # dropped by the writer and shift every offset computed below.
+          self._constant_map[buffer_idx] = None
+          continue
         buffer.data = None
         buffer.offset = 1
         buffer.size = 1
